@@ -43,7 +43,10 @@ Fixpoint skip_blank (s : bytes) : bytes :=
   | c :: r => if is_space c then skip_blank r else s
   | [] => []
   end.
-Definition strip (s : bytes) : bytes := rv (skip_blank (rv (skip_blank s))).
+(* surrounding blanks of a header value: Unicode white space (the six ASCII blanks and the UTF-8
+   encodings of U+0085, U+00A0, U+1680, U+2000..U+200A, U+2028, U+2029, U+202F, U+205F, U+3000),
+   stripped from the left, then from the right; an incomplete or invalid sequence is not a blank *)
+Definition strip (s : bytes) : bytes := rv (trim_left_go_r (rv (trim_left_go s))).
 
 (* blank-separated words *)
 Fixpoint words_aux (s : bytes) (cur : bytes) : list bytes :=
